@@ -206,7 +206,7 @@ pub fn check_case(c: &TextCase, obs: &mut Obs) -> Verdict {
 }
 
 fn strat(tier: Tier) -> BoxedStrategy<TextCase> {
-    prop_oneof![8 => text_case_mix(tier.pick(130, 200)), 2 => line_case(tier.pick(30, 100), true), 1 => big_line_case(tier.pick(130, 300))].boxed()
+    prop_oneof![16 => text_case_mix(tier.pick(130, 200)), 4 => line_case(tier.pick(30, 100), true), 2 => big_line_case(tier.pick(130, 300)), 1 => distinct_line_case(tier.pick(300, 600))].boxed()
 }
 
 fn enum_small(_tier: Tier, f: &mut dyn FnMut(TextCase) -> bool) {
@@ -242,6 +242,16 @@ impl Prop for C17 {
             Stage {
                 name: "enum-corners",
                 kind: StageKind::Enumerate { scope: "6x6 corner texts x 5 tokenizers x 3 algorithms x {str,[u8]}".into(), exhaustive: true, gen: enum_small },
+            },
+            Stage {
+                name: "huge",
+                kind: StageKind::Enumerate { scope: "2 fixed line texts with 70 000 distinct lines (token ids beyond 16 bits)".into(), exhaustive: true, gen: |_t, f| {
+                    for c in huge_line_cases() {
+                        if !f(c) {
+                            return;
+                        }
+                    }
+                } },
             },
             Stage { name: "random", kind: StageKind::Random { strategy: strat, cases: tier.pick(400_000, 2_000_000) } },
         ]
